@@ -474,7 +474,7 @@ func (g *gen) next1() (M, []bool) {
 	case x < 66:
 		m = M{"type": g.pick([]string{"UpdateAttesterManager", "UpdatePauser", "UpdateTokenController"}), "from": g.holder("owner"), "new": g.newHolder()}
 	case x < 68:
-		m = M{"type": "UpdateMaxMessageBodySize", "from": g.holder("owner"), "size": []int{0, 131, 132, 133, 200, 8000}[g.r.Intn(6)]}
+		m = M{"type": "UpdateMaxMessageBodySize", "from": g.holder("owner"), "size": []int{0, 131, 132, 133, 200, 8000, 3000000, 3000131}[g.r.Intn(8)]}
 	case x < 72:
 		a := g.msgrAddr()
 		if g.p(0.1) {
